@@ -80,8 +80,15 @@ struct Shared {
 
 /// `c := mut int x0; f := (k: int) -> int { return c op= k; }; (c, f)`
 fn shared_cell(op: &str, x0: i64) -> Result<Shared, String> {
+    shared_cell_with(op, x0, None)
+}
+
+/// `literal`: the operand is written into the function text (a constant the folding pass sees)
+/// instead of being the function's argument
+fn shared_cell_with(op: &str, x0: i64, literal: Option<i64>) -> Result<Shared, String> {
+    let operand = literal.map(|k| crate::lit::to_text(&json!(k))).unwrap_or_else(|| "k".to_string());
     let text = format!(
-        "c := mut int {}; f := (k: int) -> int {{ return c {op} k; }}; (c, f)",
+        "c := mut int {}; f := (k: int) -> int {{ return c {op} {operand}; }}; (c, f)",
         crate::lit::to_text(&json!(x0))
     );
     match run::run_text(&text, false) {
@@ -210,7 +217,7 @@ impl Property for C16Prop {
                     ("^=", 0, 0x55, 100_000),
                 ]);
                 let iters = (1 + tape.below(tier.of(300, 2000))).min(max_steps / threads).max(1);
-                json!({"kind": "orbit", "op": op, "x0": x0, "k": k, "threads": threads, "iters": iters, "reps": tier.of(3, 10)})
+                json!({"kind": "orbit", "op": op, "x0": x0, "k": k, "literal": tape.bool(), "threads": threads, "iters": iters, "reps": tier.of(3, 10)})
             }
             1 => {
                 let threads = threads.min(8);
@@ -664,7 +671,7 @@ fn check_orbit(case: &Json, stats: &mut Stats) -> Verdict {
     let mut expected = orbit.clone();
     expected.sort();
     for rep in 0..reps {
-        let shared = match shared_cell(op, x0) {
+        let shared = match shared_cell_with(op, x0, case["literal"].as_bool().unwrap_or(false).then_some(k)) {
             Ok(s) => s,
             Err(e) => return fail("C16:setup", e),
         };
@@ -1100,6 +1107,7 @@ pub fn run(session: &Session) -> i32 {
         ("/=", 1 << 62, 2, 7), ("**=", 3, 3, 5), ("**=", 3, 2, 7), ("^=", 0, 0x55, 1000),
     ] {
         cases.push(json!({"kind": "orbit", "op": op, "x0": x0, "k": k, "threads": 8, "iters": iters, "reps": session.tier.of(4, 20)}));
+        cases.push(json!({"kind": "orbit", "op": op, "x0": x0, "k": k, "literal": true, "threads": 8, "iters": iters, "reps": session.tier.of(4, 20)}));
     }
     for op in ["|=", "&=", "^="] {
         cases.push(json!({"kind": "bits", "op": op, "threads": 8, "iters": 7, "reps": session.tier.of(100, 1000)}));
